@@ -9,6 +9,7 @@ stands for no string or for empty strings only; closing an emptied scope leaves 
 as it was.
 -/
 import EdxmlModel.Template.Template
+import EdxmlProps.Lemmas.Scan
 namespace EdxmlProps.C16
 open Edxml Edxml.Tpl
 
@@ -225,10 +226,6 @@ theorem evalStr_ok (et : EType) (env : Env) (ok : EnvOk et env) (segs : List Seg
     simp only
     split <;> exact ⟨_, rfl⟩
 
-def tokValid (et : EType) : Tok → Bool
-  | .run segs => segs.all (validSeg et)
-  | _ => true
-
 /-- C16: the scope machine never gets stuck on a validated template -/
 theorem evalNodes_total_on_valid (et : EType) (env : Env) (ok : EnvOk et env) : ∀ (toks : List Tok) (d : Nat)
     (stack : List Frame), stack.length = d + 1 → balanced d toks = true → toks.all (tokValid et) = true →
@@ -283,11 +280,7 @@ theorem validated_evaluates (et : EType) (env : Env) (ok : EnvOk et env) (toks :
     (h : validate et toks = true) : ∃ s, evaluate env toks = .ok s := by
   unfold validate at h
   simp only [Bool.and_eq_true] at h
-  have hv : toks.all (tokValid et) = true := by
-    simp only [List.all_eq_true] at h ⊢
-    intro t ht
-    have := h.2 t ht
-    cases t <;> simpa [tokValid] using this
+  have hv : toks.all (tokValid et) = true := h.2
   obtain ⟨top, ht⟩ := evalNodes_total_on_valid et env ok toks 0 [{}] rfl h.1 hv
   unfold evaluate
   rw [ht]
@@ -305,6 +298,49 @@ theorem validate_sound (et : EType) (f : Option String) (args : List String) (h 
   · cases hs : splitArgs f args with
     | none => rw [hs] at h; cases h.2
     | some _ => rfl
+
+/-! ### from the template string -/
+
+/-- C16: searching the whole template for placeholders that contain no curly bracket (what
+`Template.validate` does) finds exactly the placeholders that evaluation finds in the strings
+between the curly brackets -/
+theorem placeholders_found_alike (cs : List Char) :
+    findAll stopValidate cs = (runsOf cs).flatMap (findAll stopEval) := findAll_runs _ _ (Nat.le_refl _)
+
+/-- C16: validation judges exactly the placeholders that evaluation will replace -/
+theorem validation_judges_what_is_evaluated (et : EType) (s : String) :
+    validateStr et s = validate et (tokenize s) := validateStr_eq et s
+
+/-- C16, for template strings: a template that passes validation for an event type evaluates to a
+string for every valid event of that type -/
+theorem validated_string_evaluates (et : EType) (env : Env) (ok : EnvOk et env) (s : String)
+    (h : validateStr et s = true) : ∃ r, evaluateStr env s = .ok r := by
+  rw [validateStr_eq] at h
+  exact validated_evaluates et env ok (tokenize s) h
+
+/-- C16: scanning loses nothing — the text and the placeholders of a string, written out one after
+the other, are the string -/
+theorem scan_loses_nothing (cs : List Char) : (scan cs).flatMap (fun s => (segText s).toList) = cs :=
+  scan_lossless cs
+
+/-- every placeholder that passes validation has an argument, so the validator's reading of the
+arguments (`['']` counts as none) and the evaluator's (`split(',')`) coincide on it -/
+theorem valid_placeholder_has_arguments (et : EType) (f : Option String) (h : validPh et f [] = true) : False := by
+  unfold validPh at h
+  simp only [Bool.and_eq_true] at h
+  obtain ⟨hk, h⟩ := h
+  cases f with
+  | none => simp [splitArgs, propertyCount] at h
+  | some name =>
+    simp only [List.contains_iff_mem, knownFormatters, List.mem_cons, List.mem_nil_iff, or_false] at hk
+    rcases hk with rfl | rfl | rfl | rfl | rfl | rfl | rfl | rfl | rfl | rfl | rfl <;>
+      simp [splitArgs, propertyCount, argumentCount] at h
+
+theorem arguments_read_alike (a : List Char) (h : argsOf a ≠ []) : argsOf a = rawArgs a := by
+  unfold argsOf at h ⊢
+  split
+  · rename_i he; simp [he] at h
+  · rfl
 
 /-! ### which scopes are omitted -/
 
@@ -366,5 +402,9 @@ example : validate exType [.run [.text "Seen ", .ph none ["s"]], .openScope, .ru
 example : (match evaluate exEnv [.run [.text "Seen ", .ph none ["s"]], .openScope, .run [.text " at ", .ph (some "date_time") ["d1", "year"]],
     .closeScope, .run [.text "."]] with | .ok s => s == "Seen alpha." | _ => false) = true := by decide +kernel
 example : validate exType [.run [.ph (some "url") ["s"]]] = false := by decide +kernel
+example : validateStr exType "Seen [[s]]{ at [[date_time:d1,year]]}." = true := by decide +kernel
+example : tokenize "a[[[s]]]{x}" = [.run [.text "a", .ph none ["[s"], .text "]"], .openScope, .run [.text "x"], .closeScope, .run []] := by
+  decide +kernel
+example : validateStr exType "[[empty:s,x{[[boolean_on_off:s]]}" = false := by decide +kernel
 
 end EdxmlProps.C16
